@@ -614,3 +614,24 @@ def run(ctx, col: Collector):
             guard_obligation(ctx, col, 'C09-guard', fi, 'absent', exact([('not', ('in', o, container))], [('isinstance', o, m.split('_')[1].capitalize())]),
                              [EXC + exc], protect=None, what=f'{o} not in {container}', when=False)
     guarded(col, 'C09-guard', 'other-guards', other_guards)
+
+    # ------------------------------------------------------------------ read operations leave the database as it is
+    def readers():
+        # iteration, lookup and rendering are interleaved with the mutators: "lists exactly the tables added and not deleted, in insertion order" needs
+        # the reading operations not to reorder or edit the collections (effect analysis over their call closure: only objects created in the call are stored into)
+        ci = idx.cls(DB, 'Database')
+        n = 0
+        for name in ('__iter__', '__getitem__', '__contains__', '__len__', '__repr__', 'sql', 'dbml'):
+            fi = ci.methods.get(name) or ci.props.get(name)
+            if fi is None:
+                continue
+            n += 1
+            muts = eff.mutates(fi)
+            if not muts:
+                col.ok('C09-readers', f'Database.{name}:read-only', f'Database.{name} stores only into objects created during the call', node=fi.node, file=fi.file)
+            else:
+                for t in sorted(muts):
+                    col.bad('C09-readers', f'Database.{name}:read-only', f'Database.{name} changes the state it reads (`{t}`): {eff.why[fi.id].get(t, "")} - '
+                            f'the order or content of the collections after reading differs from what add/delete left', node=fi.node, file=fi.file)
+        col.floor('C09-readers', 'reading operations of Database', n, 4)
+    guarded(col, 'C09-readers', 'readers', readers)
